@@ -73,6 +73,7 @@ type Pool struct {
 	Methods []string `json:"methods"`
 	URLs    []Op     `json:"urls"` // URL calls made after the request probes (C10)
 	RT      bool     `json:"rt"`   // round trip: build the URL of every dispatched route from its captured parameters
+	Link    bool     `json:"link"` // C08: record OPTIONS / HEAD / GET answers of the same path next to every served route
 	TH      []Op     `json:"th"`   // requests handed to the bundled Trace helper (C18)
 }
 
